@@ -85,11 +85,30 @@ def _scratch_base(big=False):
 
 @contextlib.contextmanager
 def scratch(prefix="vf-", big=False):
-    d = tempfile.mkdtemp(prefix=prefix, dir=_scratch_base(big))
+    # the run's tag in the name: what a killed worker leaves behind is swept by the run that started it (sweep_scratch)
+    tag = os.environ.get("VF_RUN_TAG")
+    d = tempfile.mkdtemp(prefix=prefix + (("r%s-" % tag) if tag else ""), dir=_scratch_base(big))
     try:
         yield d
     finally:
         shutil.rmtree(d, ignore_errors=True)
+
+
+def sweep_scratch(tag):
+    """Remove the scratch directories of this run that workers killed by the watchdog (or by a codec library) left behind."""
+    import glob
+
+    n = 0
+    for base in {_scratch_base(False) or tempfile.gettempdir(), _scratch_base(True) or tempfile.gettempdir()}:
+        for d in glob.glob(os.path.join(base, "vf-*r%s-*" % tag)):
+            for dp, dns, fns in os.walk(d):
+                try:
+                    os.chmod(dp, 0o700)
+                except OSError:
+                    pass
+            shutil.rmtree(d, ignore_errors=True)
+            n += 1
+    return n
 
 
 def walk_tree(root):
